@@ -5,7 +5,7 @@ independent reference interpreter (lexical environments, closed top-level functi
 predicts the marker every use must evaluate to; unbound uses and duplicate declarations must
 be reported as errors."""
 import json
-from . import core, progs
+from . import core, progs, evaltie
 
 POOL = ["a", "b", "c"]
 
@@ -340,6 +340,9 @@ def check(ctx):
         cases.append((g, p, res, dup))
     out = progs.compile_many([c[1] for c in cases])
     resolve_tie(ctx, [c[1] for c in cases] + progs.gen_programs(ctx, 400 if ctx.thorough else 120))
+    # the evaluator tie (eval.rs vs Model/Eval.v) and the hypotheses / conclusion of C08_evaluation_is_lexical
+    evaltie.run(ctx, [c[1] for c in cases[: (1500 if ctx.thorough else 300)]] + progs.gen_programs(ctx, 300 if ctx.thorough else 60, start=5000)
+                + evaltie.repo_corpus())
     seen = set()
     for (g, p, res, dup), r in zip(cases, out):
         ctx.cov["evaluations"] += 1
